@@ -402,6 +402,59 @@ pub fn replay_opts<B: Backend>(v: &Value, acc: &mut Acc, relabel_only: bool) -> 
     Ok(())
 }
 
+/// Keyless forgeries of k1.seal: blobs computed from PUBLIC data alone.  The only secret-dependent
+/// input of the unsealing computation is r = c^d mod n; a ciphertext the recipient's RSA operation
+/// refuses (c >= n) has no r at all, so a blob built for any guessed r (empty, 0, 1, in either
+/// width) must be refused under every recipient key.  (c = 0 and c = 1 are honest encapsulations of
+/// r = 0 and r = 1 for every modulus at once - RSA-KEM has no way to refuse them and the PASERK
+/// specification does not ask for it; they are not in this enumeration, see DESIGN section 7.)
+fn keyless_forgeries_v1(acc: &mut Acc) {
+    use num_bigint_dig::BigUint;
+    type B = BV1;
+    let attacker_key = *b"attacker-chosen-local-key-32byte";
+    let mut total = 0u64;
+    for ki in 0..2u64 {
+        let ks = KeySeed::from_u64(0xc06f + ki);
+        let (pke_sk, _pk, _sk_raw, pk_raw) = pke_pair::<B>(&ks);
+        let Ok(rp) = model::rsa_pub_from_spki(&pk_raw) else {
+            acc.harness_errors.push("c06 keyless: cannot read the recipient modulus".into());
+            return;
+        };
+        let n = rp.n.clone();
+        let one = BigUint::from(1u8);
+        let top = (BigUint::from(1u8) << 4096) - &one;
+        let mut cs: Vec<(String, Vec<u8>)> = vec![("all-ones".into(), vec![0xff; 512]), ("n".into(), model::i2osp(&n, 512)), ("n+1".into(), model::i2osp(&(&n + &one), 512)), ("n+2".into(), model::i2osp(&(&n + BigUint::from(2u8)), 512)), ("2^4096-2".into(), model::i2osp(&(&top - &one), 512))];
+        // the midpoint between n and 2^4096
+        cs.push(("(n+2^4096)/2".into(), model::i2osp(&((&n + &top) >> 1), 512)));
+        let mut last1 = vec![0u8; 512];
+        last1[511] = 1;
+        let rs: Vec<(&str, Vec<u8>)> = vec![("empty", vec![]), ("00", vec![0]), ("00*512", vec![0; 512]), ("01", vec![1]), ("00..01", last1), ("c itself", vec![])];
+        for (cname, c) in &cs {
+            for (rname, r) in &rs {
+                let r: &[u8] = if *rname == "c itself" { c } else { r };
+                let text = model::pke_recompute_rsa(r, c, &attacker_key, None);
+                let case = json!({"recipient": ki, "c": cname, "r_guess": rname, "text": text});
+                total += 1;
+                acc.check(&case, |acc| {
+                    acc.eval();
+                    acc.nt(hash_of(&(ki, cname, rname)));
+                    let parsed = text.parse::<SealedKey<V<B>>>();
+                    let Ok(sealed) = parsed else { return Ok(()) };
+                    match sealed.unseal(&pke_sk) {
+                        Err(_) => Ok(()),
+                        Ok(k) => Err(Fail::new(
+                            "C06/paseto-v1/pke/keyless-forgery/accepted".to_string(),
+                            format!("a k1.seal blob computed from public data alone (c = {cname} >= n, r guessed as {rname}) unsealed under a recipient key to {}", crate::util::hx(&key_bytes(&k))),
+                        )),
+                    }
+                });
+            }
+        }
+    }
+    acc.class_n("keyless-forgery:v1:c>=n", total);
+    acc.exhaustive.push(format!("paseto-v1 keyless k1.seal forgeries: 6 ciphertexts >= n x 6 guesses of r x 2 recipients = {total}"));
+}
+
 fn subs_for<B: Backend>(out: &mut Vec<SubCheck>) {
     for (kind, secret) in [(0u8, false), (0, true), (1, false), (1, true), (2, false)] {
         let ks = if secret { "secret" } else { "local" };
@@ -433,10 +486,26 @@ fn subs_for<B: Backend>(out: &mut Vec<SubCheck>) {
 pub fn def() -> PropertyDef {
     let mut subs = Vec::new();
     crate::for_backends!(B => subs_for::<B>(&mut subs));
+    subs.push(SubCheck::custom(
+        "c06.keyless-forgeries/paseto-v1",
+        6,
+        keyless_forgeries_v1,
+        |v: &Value, acc: &mut Acc| {
+            // the case carries the blob text; the recipient is derived from its index
+            let ki = v.get("recipient").and_then(|x| x.as_u64()).unwrap_or(0);
+            let text = v.get("text").and_then(|x| x.as_str()).unwrap_or("").to_string();
+            let (pke_sk, _, _, _) = pke_pair::<BV1>(&KeySeed::from_u64(0xc06f + ki));
+            let _ = acc;
+            match text.parse::<SealedKey<V<BV1>>>().and_then(|s| s.unseal(&pke_sk)) {
+                Err(_) => Ok(()),
+                Ok(_) => Err(Fail::new("C06/paseto-v1/pke/keyless-forgery/accepted", "a k1.seal blob computed from public data alone unsealed under a recipient key")),
+            }
+        },
+    ));
     PropertyDef {
         id: "C06",
         level: "fault_enumeration",
-        rule: "for each library-produced PIE / PBKW / PKE blob (proptest-sampled keys, passwords, recipients): every single-bit flip of every byte (v1 k1.seal: deterministic spread in quick, all tag/edk/edge bits in thorough), every truncation front and back, 1-3 byte insertions at every field boundary, header rewritten local<->secret and to every other version (same secret bytes), other wrapping key + one-bit neighbours, other / extended / truncated / empty password, other recipient; oracle: unwrap returns Err for every mutant and never a key, unmutated control returns the original key. PBKW mutants whose parameter field exceeds the budget (10000 iterations / 16 MiB / 3 passes) are skipped and counted. Non-trivial iff the mutant keeps all fixed-width fields; distinct by (blob, class, position)",
+        rule: "for each library-produced PIE / PBKW / PKE blob (proptest-sampled keys, passwords, recipients): every single-bit flip of every byte (v1 k1.seal: deterministic spread in quick, all tag/edk/edge bits in thorough), every truncation front and back, 1-3 byte insertions at every field boundary, header rewritten local<->secret and to every other version (same secret bytes), other wrapping key + one-bit neighbours, other / extended / truncated / empty password, other recipient; oracle: unwrap returns Err for every mutant and never a key, unmutated control returns the original key. paseto-v1 additionally: k1.seal blobs computed from public data alone for ciphertexts the RSA operation refuses (c >= n: n, n+1, n+2, midpoint, 2^4096-2, all-ones) and every guess of r in {empty, 0, 1 in one-byte and 512-byte width, c itself}, under two recipients: never a key. PBKW mutants whose parameter field exceeds the budget (10000 iterations / 16 MiB / 3 passes) are skipped and counted. Non-trivial iff the mutant keeps all fixed-width fields; distinct by (blob, class, position)",
         assumptions: vec!["PBKW blobs use the cheapest parameters so that every mutant's KDF runs", "mutants are offered through FromStr + unwrap/unseal"],
         subs,
     }
